@@ -141,3 +141,38 @@ pub fn gen_zoom(r: &mut Rng) -> String {
     let e = gen_entries(r, 6);
     format!("size={} ips={} multipass={} entries={}", r.pick(&[3u32, 5, 10]), r.range(1, 3), r.below(2), fmt_entries(&e))
 }
+
+/// C02/C13: whatever the writer ACCEPTS must read back exactly.  args: entries=s,e;...  rests=<hex>;<hex>;...
+pub fn run_accept_implies_readback(a: &Args) -> Result<(), String> {
+    let entries = parse_entries(a.get("entries").ok_or("entries")?);
+    let rests: Vec<String> = a.get("rests").map(|r| r.split(';').map(|h| {
+        let b: Vec<u8> = (0..h.len() / 2).map(|i| u8::from_str_radix(&h[2 * i..2 * i + 2], 16).unwrap()).collect();
+        String::from_utf8(b).unwrap()
+    }).collect()).unwrap_or_default();
+    let len: u32 = entries.iter().map(|v| v.1).max().unwrap_or(0) + 10;
+    let tf = tempfile::NamedTempFile::new().map_err(|e| e.to_string())?;
+    let chrom_map = HashMap::from([("chr1".to_string(), len)]);
+    let mut out = BigBedWrite::create_file(tf.path(), chrom_map).map_err(|e| e.to_string())?;
+    out.options.inmemory = true; out.options.channel_size = 0; out.options.compress = false;
+    let runtime = tokio::runtime::Builder::new_current_thread().build().unwrap();
+    let v: Vec<(String, BedEntry)> = entries.iter().enumerate().map(|(i, &(s, e))| ("chr1".to_string(), BedEntry { start: s, end: e, rest: rests.get(i).cloned().unwrap_or_else(|| format!("n{}", i)) })).collect();
+    let want = v.clone();
+    if out.write(BedParserStreamingIterator::wrap_infallible_iter(v.into_iter(), true), runtime).is_err() {
+        return Ok(()); // refused: fine
+    }
+    let got = std::panic::catch_unwind(|| -> Result<Vec<BedEntry>, String> {
+        let mut r = BigBedRead::open_file(tf.path()).map_err(|e| format!("open: {}", e))?;
+        let x = r.get_interval("chr1", 0, len).map_err(|e| format!("query: {}", e))?.collect::<Result<Vec<_>, _>>().map_err(|e| format!("read: {}", e)); x
+    }).map_err(|_| "reader panicked on a file the writer accepted".to_string())??;
+    if got.len() != want.len() { return Err(format!("writer accepted {} entries, reader returned {}", want.len(), got.len())); }
+    for (g, w) in got.iter().zip(want.iter()) {
+        if g.start != w.1.start || g.end != w.1.end || g.rest != w.1.rest { return Err(format!("accepted entry {}-{} {:?} read back as {}-{} {:?}", w.1.start, w.1.end, w.1.rest, g.start, g.end, g.rest)); }
+    }
+    Ok(())
+}
+pub fn gen_accept_implies_readback(r: &mut Rng) -> String {
+    let mut e = gen_entries(r, 4);
+    if r.below(3) == 0 { e[0] = (0, 0); }
+    let rests: Vec<String> = e.iter().map(|_| { let s = if r.below(3) == 0 { "a\0b" } else { "x\ty" }; s.replace("\\0", "\0").bytes().map(|b| format!("{:02x}", b)).collect() }).collect();
+    format!("entries={} rests={}", fmt_entries(&e), rests.join(";"))
+}
